@@ -24,9 +24,52 @@ def member_scale(j, off=0):
     return 4.0 ** (((j + off) * 3) % 7 - 3)
 
 
+# family (d): members whose scales differ by many orders of magnitude (beyond 1 / (n * eps) of the dtype), so that any
+# quantity reduced over the WHOLE batch instead of per member (a rank cut-off, a jitter, a tolerance) wipes out a member
+XS_SCALES = {"float64": [1.0, 1e-9, 1e6, 1e-12], "float32": [1.0, 1e-9, 1e6]}
+_XS = [None]
+
+
+class xs_scales:
+    def __init__(self, dtype):
+        self.s = XS_SCALES[dtype]
+
+    def __enter__(self):
+        _XS[0] = {"s": self.s, "off": None}      # one offset per expression: all summands of a member share its scale
+
+    def __exit__(self, *a):
+        _XS[0] = None
+        return False
+
+
 def member_params(rng, B):
     off = rng.randrange(7)
+    if _XS[0] is not None:
+        if _XS[0]["off"] is None:
+            _XS[0]["off"] = off
+        xs, o = _XS[0]["s"], _XS[0]["off"]
+        return [(xs[(j + o) % len(xs)], CONDS[(j + off) % 3]) for j in range(B)]
     return [(member_scale(j, off), CONDS[(j + off) % 3]) for j in range(B)]
+
+
+def sing_xs(rng, batch, n):
+    """like spd_var_tensor, but every member of the LARGEST scale is rank-deficient (a a^T, rank n-1, float data): its
+    Cholesky factorization fails by round-off or needs jitter; LinearOperator.root_decomposition then falls back to symeig"""
+    B = _prod(batch)
+    g = torch.Generator().manual_seed(rng.randrange(1 << 30))
+    ps = member_params(rng, B)
+    big = max(s for s, _ in ps)
+    mats = []
+    for (s, c) in ps:
+        if s == big and n > 1:
+            a = N._real_randn(n, n - 1, generator=g, dtype=torch.float64)
+            A = s * (a @ a.mT)
+        else:
+            Q, _ = torch.linalg.qr(N._real_randn(n, n, generator=g, dtype=torch.float64))
+            ev = torch.linspace(1.0, c, n, dtype=torch.float64) if n > 1 else torch.tensor([(1.0 + c) / 2], dtype=torch.float64)
+            A = (Q * (s * ev)) @ Q.mT
+        mats.append((A + A.mT) / 2)
+    return ft(torch.stack(mats).reshape(*batch, n, n))
 
 
 def _prod(xs):
